@@ -1,11 +1,18 @@
 """C13 - undefined or incomplete specifications never produce a verdict.
 
-  C13.R1  validation before rewrite: no guard of a validator is made unsatisfiable by a rewrite that runs before it
-  C13.R2  must-pass-through: validators / None-guards / option guards dominate evaluation, dereferences and state writes
-  C13.R3  who may raise AssertionError: exactly the two verdict sites; no `assert` statement in src/
+All rules are decided on *symbolic runs* of public entry points (rules/c13_sym.py): the entry point is interpreted with symbolic
+object state, private helpers are followed inter-procedurally, and the rule asks whether an outcome that would be a verdict
+(normal return, call into an AssertionError site) is consistent with an invalid specification.  Private names, helper
+structure, early returns, table-driven validators and setattr/getattr spellings do not matter; fields are found by the
+*role* the public fluent API gives them (`should()` writes the 'should' flag, `from_file()` writes the diagram path, ...).
+
+  C13.R1  validation before rewrite: no rewrite of the configuration that precedes a check removes what the check must see
+  C13.R2  must-pass-through: on no path does an incomplete / contradictory Rule, LayerRule, DiagramRule or architecture request
+          reach evaluation (validators, None-guards, option guards, relative_to, diagram tags)
+  C13.R3  who may raise AssertionError: only raises that depend on evaluation results (or re-raise caught verdicts); no `assert`
   C13.R4  handler inventory: no broad handler, no lookup-error handler around graph accesses or validators
-  C13.R5  contradictory verbs: BehaviorRequirement._validate raises iff should_not and (should or should_only)
-  C13.R6  unknown names reach a raising lookup on every path (searches, graph accessors, layer names)
+  C13.R5  contradictory verbs: should_not combined with should / should_only is rejected (requirement class and rule pipeline)
+  C13.R6  unknown names reach a raising lookup on every path (searches down to networkx' successors/predecessors, layer names)
   C13.R7  the required-configuration check covers subject, verb, import type and object
 """
 
@@ -13,257 +20,884 @@ from __future__ import annotations
 
 import ast
 
-from core.cfg import EXIT
-from core.guards import FALSE, TRUE, atom, atoms_of, conds_formula, equivalent, evaluate, f_and, f_not, f_or, implies, satisfiable, show, to_formula
-from core.loader import AnalysisError, FuncInfo, Repo, ancestors, calls_in, header, norm, own_nodes, parent
+from core.guards import TRUE, Formula, atom, atoms_of, f_and, f_not, f_or, show
+from core.loader import AnalysisError, ClassInfo, FuncInfo, Repo, ancestors, header, norm, own_nodes, parent
 from core.report import Result
+from core.types import members
 
-from . import search as S
-from .common import cfg_of, conds, copy_prop, dotted, guard_formula, is_attr_call, loops_around, reachable_funcs, stmt_of, types_of, where
-from .tables import ATOMS, BEHAVIOR, Inliner, MATCHER, RULE, SEARCHES, point_env
+from . import c13_sym as S
+from .c13_sym import Coll, Const, Opq, Phi, Ref, exception_class_name, implies_path, is_assertion_error, key, sat_path
+from .common import callees_of, conds, dotted, reachable_funcs, types_of, where
 
-LAYER_RULE = "pytestarch.query_language.layered_architecture_rule"
-DIAGRAM_RULE = "pytestarch.diagram_extension.diagram_rule"
-DIAGRAM_PARSER = "pytestarch.diagram_extension.diagram_parser"
-MULTI = "pytestarch.query_language.multiple_rule_applier"
-ENTRY = "pytestarch.pytestarch"
-NXGRAPH = "pytestarch.eval_structure.networkxgraph"
+PKG = "pytestarch"
 
 
-def exception_class_name(repo: Repo, fi: FuncInfo, exc: ast.expr | None) -> str:
-    if exc is None:
-        return "<re-raise>"
-    e = exc.func if isinstance(exc, ast.Call) else exc
-    fq = repo.resolve_name(fi.module, e) if isinstance(e, (ast.Name, ast.Attribute)) else None
-    return fq or dotted(e) or norm(e)
+class Ctx:
+    def __init__(self, repo: Repo) -> None:
+        self.repo = repo
+        self.T = types_of(repo)
+        self._sites: set[str] | None = None
+        self._reach: dict[str, bool] = {}
+
+    # public API anchors -----------------------------------------------------------
+    def public_class(self, name: str) -> ClassInfo:
+        fq = self.repo._canonical(f"{PKG}.{name}")
+        ci = self.repo.classes.get(fq)
+        if ci is None:
+            cands = [c for c in self.repo.classes.values() if c.name == name]
+            if len(cands) != 1:
+                raise AnalysisError(f"public class {PKG}.{name} not found")
+            ci = cands[0]
+        return ci
+
+    def public_func(self, name: str) -> FuncInfo:
+        fq = self.repo._canonical(f"{PKG}.{name}")
+        modname, _, fn = fq.rpartition(".")
+        m = self.repo.modules.get(modname)
+        if m is None or fn not in m.functions:
+            raise AnalysisError(f"public function {PKG}.{name} not found")
+        return m.functions[fn]
+
+    def method(self, ci: ClassInfo, name: str) -> FuncInfo:
+        m = self.repo.lookup_method(ci, name)
+        if m is None or m.is_abstract:
+            raise AnalysisError(f"public method {ci.name}.{name} not found")
+        return m
+
+    # verdict sites ------------------------------------------------------------------
+    @property
+    def sites(self) -> set[str]:
+        """Functions with an own `raise AssertionError` (the places where a verdict is signalled)."""
+        if self._sites is None:
+            self._sites = set()
+            for f in self.repo.all_functions():
+                for n in own_nodes(f.node):
+                    if isinstance(n, ast.Raise) and n.exc is not None and is_assertion_error(self.repo, exception_class_name(self.repo, f, n.exc)):
+                        self._sites.add(f.fq)
+        return self._sites
+
+    def reaches_site(self, f: FuncInfo) -> bool:
+        if f.fq not in self._reach:
+            self._reach[f.fq] = any(g.fq in self.sites for g in reachable_funcs(self.repo, [f], byname=False))
+        return self._reach[f.fq]
+
+    def stop(self, callees: list[FuncInfo]) -> bool:
+        if any(c.fq in self.sites for c in callees):
+            return True
+        return len(callees) > 1 and any(self.reaches_site(c) for c in callees)
+
+    def run(self, fi: FuncInfo, init=None, descend=None, stop="default") -> S.Sym:
+        return S.run(self.repo, fi, stop=self.stop if stop == "default" else stop, descend=descend, init=init)
 
 
-def is_assertion_error(repo: Repo, name: str) -> bool:
-    if name.split(".")[-1] == "AssertionError":
-        return True
-    ci = repo.classes.get(name)
-    if ci is not None:
-        return any(b.split(".")[-1] == "AssertionError" for c in repo.mro(ci) for b in c.bases)
-    return False
-
-
-# --------------------------------------------------------------------------- R1
-
-
-def constant_fields_after(repo: Repo, fn: FuncInfo) -> dict[str, object]:
-    """Fields of the returned configuration that have the same constant value on every return path of a rewrite function."""
-    cfgp = fn.param_names[1] if fn.cls is not None else fn.param_names[0]
-    rets = [s for s in own_nodes(fn.node) if isinstance(s, ast.Return) and s.value is not None]
-    per_path: list[dict[str, object]] = []
-    for r in rets:
-        consts: dict[str, object] = {}
-        if isinstance(r.value, ast.Call) and dotted(r.value.func) == "replace":
-            for k in r.value.keywords:
-                if isinstance(k.value, ast.Constant):
-                    consts[k.arg] = k.value.value
-        elif dotted(r.value) == cfgp:
-            # unchanged configuration: constants implied by the path condition
-            for e, pol in conds(fn, r):
-                f = e.operand if isinstance(e, ast.UnaryOp) and isinstance(e.op, ast.Not) else e
-                neg = isinstance(e, ast.UnaryOp) and isinstance(e.op, ast.Not)
-                if isinstance(f, ast.Attribute) and dotted(f.value) == cfgp:
-                    consts[f.attr] = bool(pol) != neg
-        else:
-            return {}
-        per_path.append(consts)
-    if not per_path:
-        return {}
-    out = {}
-    for k, v in per_path[0].items():
-        if all(k in p and bool(p[k]) == bool(v) for p in per_path):
-            out[k] = bool(v)
+def bad_outcomes(sym: S.Sym) -> list[S.Outcome]:
+    """Outcomes that amount to a verdict: the entry returns normally, a verdict site is entered, or AssertionError is raised."""
+    out = []
+    for o in sym.outcomes:
+        if o.kind in ("return", "verdict"):
+            out.append(o)
+        elif o.kind == "raise" and is_assertion_error(sym.repo, o.exc):
+            out.append(o)
     return out
 
 
-def run_r1(repo: Repo, res: Result) -> None:
-    rule = repo.cls(RULE, "Rule")
-    aa = rule.methods.get("assert_applies")
-    if aa is None:
-        raise AnalysisError("Rule.assert_applies not found")
-    cfg = cfg_of(aa)
-    # rewrites: statements `self._configuration = self.<fn>(self._configuration)`
-    rewrites = []
-    for s in aa.body:
-        if isinstance(s, ast.Assign) and dotted(s.targets[0]) == "self._configuration" and isinstance(s.value, ast.Call) and isinstance(s.value.func, ast.Attribute):
-            fn = repo.lookup_method(rule, s.value.func.attr)
-            if fn is not None:
-                rewrites.append((s, fn, constant_fields_after(repo, fn)))
-    # validators: self-calls whose callee (transitively, within Rule) raises
-    T = types_of(repo)
-    validator_calls = []
-    for s in aa.body:
-        for c in ast.walk(s):
-            if isinstance(c, ast.Call) and isinstance(c.func, ast.Attribute) and dotted(c.func.value) == "self":
-                fn = repo.lookup_method(rule, c.func.attr)
-                if fn is None:
-                    continue
-                reach = [f for f in reachable_funcs(repo, [fn], byname=False) if f.cls is rule]
-                raises = [(f, r) for f in reach for r in own_nodes(f.node) if isinstance(r, ast.Raise)]
-                if raises and not isinstance(s, ast.Assign):
-                    validator_calls.append((s, fn, raises))
-    n = 0
-    all_sites: dict[tuple[str, int], list] = {}
-    for s, fn, raises in validator_calls:
-        for f, r in raises:
-            all_sites.setdefault((f.fq, id(r)), [f, r, []])[2].append(s)
-    for f, r, call_stmts in all_sites.values():
-        g = guard_formula(f, r)
-        fields = {a for a in atoms_of(g)}
-        for rs, rfn, consts in rewrites:
-            for fld, val in consts.items():
-                names = [a for a in fields if a in (f"bool(self._configuration.{fld})", f"self._configuration.{fld} is None")]
-                if not names:
-                    continue
-                # is the guard satisfiable with the field fixed to the rewrite's constant?
-                env_fix = f_and([atom(a) if val else f_not(atom(a)) for a in names if a.startswith("bool(")])
-                dead_after = not satisfiable(g, env_fix)
-                if not dead_after:
-                    continue
-                n += 1
-                # some invocation of this guard must run before the rewrite
-                before = [cs for cs in call_stmts if cfg.dominates(cs, rs) and cs is not rs]
-                ok = bool(before)
-                res.add(
-                    "C13.R1",
-                    repo.key(f, _if_of(r)) + f" [vs rewrite {rfn.name}]",
-                    ok,
-                    f"the guard reading `{fld}` is evaluated before `{header(rs)}` fixes it to {val}" if ok else f"`{header(rs)}` sets `{fld}` to {val} on every path before the only check of `{show(g)}` runs: the guard can never fire and the invalid specification is evaluated instead of rejected",
-                    where(f, r),
-                    kind="dominance",
-                )
-    res.floor("C13.R1", 1, n)
+def rejections(sym: S.Sym) -> list[S.Outcome]:
+    return [o for o in sym.outcomes if o.kind == "raise" and not is_assertion_error(sym.repo, o.exc)]
 
 
-def _if_of(stmt: ast.AST) -> ast.AST:
-    p = parent(stmt)
-    return p if isinstance(p, ast.If) else stmt
+def swallowed(sym: S.Sym, ev: S.Event, catching: set[str], bad: list[S.Outcome] | None = None) -> str | None:
+    """Name of a handler around `ev` that catches its error and can complete normally (fall through / return / go on to a
+    verdict); a handler that always raises (re-raise, conversion into another exception) does not swallow the error."""
+    for n, i, types in getattr(ev, "handler_entries", ()):
+        if set(types) & catching and sym.handler_swallows.get((n, i), True):
+            return ", ".join(sorted(set(types) & catching))
+    return None
 
 
-# --------------------------------------------------------------------------- R2
+def where_o(o: S.Outcome) -> str:
+    return f"{o.ctx.relpath}:{getattr(o.node, 'lineno', 0)}" if o.ctx is not None else ""
 
 
-def run_r2(repo: Repo, res: Result) -> None:
-    rule = repo.cls(RULE, "Rule")
-    aa = rule.methods["assert_applies"]
-    cfg = cfg_of(aa)
-    val = [c for c in calls_in(aa.node) if is_attr_call(c, "_assert_required_configuration_present")]
-    uses = [c for c in calls_in(aa.node) if isinstance(c.func, ast.Attribute) and c.func.attr in ("_prepare_rule_matcher", "match")]
-    ok = len(val) >= 1 and len(uses) >= 2 and all(cfg.dominates(stmt_of(val[0]), stmt_of(u)) for u in uses) and not conds(aa, val[0])
-    res.add("C13.R2", f"{aa.relpath}::{aa.qualname}::validation dominates evaluation", ok, "the required-configuration check runs unconditionally before the matcher is built and applied" if ok else "the matcher can be built / applied without the required-configuration check having run", where(aa, aa.node), kind="dominance")
-    # LayerRule: every dereference of self._rule / self._architecture is guarded by `is None -> raise`
-    lr = repo.cls(LAYER_RULE, "LayerRule")
-    n = 0
-    for m in lr.methods.values():
-        if m.name == "__init__":
-            continue
-        for node in own_nodes(m.node):
-            if isinstance(node, ast.Attribute) and isinstance(node.value, ast.Attribute) and dotted(node.value) in ("self._rule", "self._architecture") and isinstance(node.ctx, ast.Load):
-                tgt = dotted(node.value)
-            elif isinstance(node, ast.Subscript) and dotted(node.value) in ("self._rule", "self._architecture"):
-                tgt = dotted(node.value)
+def describe_outcome(o: S.Outcome) -> str:
+    if o.kind == "verdict":
+        return f"the call `{norm(o.node, 60)}` in {o.ctx.qualname} (enters the verdict site {o.callee.split('::')[-1]})"
+    if o.kind == "return":
+        return f"the normal return of {o.ctx.qualname}" + (f" (`{header(o.node)}`)" if isinstance(o.node, ast.Return) else "")
+    return f"`{norm(o.node, 60)}` in {o.ctx.qualname}"
+
+
+def must(path, ev_path) -> bool:
+    """Every run that takes `path` has taken `ev_path` (the event happened on it)."""
+    ev_path = tuple(ev_path)
+    if tuple(path[: len(ev_path)]) == ev_path:
+        return True
+    return implies_path(path, S.conj(ev_path))
+
+
+def consistent(o: S.Outcome, want: Formula) -> bool:
+    return sat_path(o.path, want)
+
+
+def final_writes(sym: S.Sym, prefix: str = "self.") -> dict[str, S.Val]:
+    """Attribute keys (below `prefix`) with the value they have when the entry returns normally (only unconditional ones)."""
+    rets = [o for o in sym.outcomes if o.kind == "return"]
+    out: dict[str, S.Val] = {}
+    for i, o in enumerate(rets):
+        cur = {k: v for k, v in (o.store or {}).items() if k.startswith(prefix) and not isinstance(v, S.CollState)}
+        if i == 0:
+            out = cur
+        else:
+            out = {k: v for k, v in out.items() if cur.get(k) == v}
+    return out
+
+
+# --------------------------------------------------------------------------- roles of the Rule configuration
+
+
+FLUENT_VERBS = ("should", "should_only", "should_not")
+
+
+def rule_roles(ctx: Ctx, res: Result) -> dict[str, str] | None:
+    """role -> attribute key, derived from what the public fluent methods of `Rule` write."""
+    rule = ctx.public_class("Rule")
+
+    def writes(name: str, init=None) -> dict[str, S.Val]:
+        return final_writes(ctx.run(ctx.method(rule, name), init=init))
+
+    roles: dict[str, str] = {}
+    problems: list[str] = []
+    w = {n: writes(n) for n in (*FLUENT_VERBS, "modules_that", "import_modules_that", "be_imported_by_modules_that", "import_modules_except_modules_that", "import_anything")}
+    for v in FLUENT_VERBS:
+        ks = [k for k, val in w[v].items() if val == Const(True)]
+        if len(ks) == 1:
+            roles[v] = ks[0]
+        else:
+            problems.append(f"{v}() sets {ks or 'no flag'}")
+    imp, rev = w["import_modules_that"], w["be_imported_by_modules_that"]
+    ks = [k for k, val in imp.items() if val == Const(True) and rev.get(k) == Const(False)]
+    if len(ks) == 1:
+        roles["import"] = ks[0]
+    else:
+        problems.append(f"import_modules_that()/be_imported_by_modules_that() differ in {ks or 'no flag'}")
+    ks = [k for k, val in w["modules_that"].items() if isinstance(val, Const) and isinstance(imp.get(k), Const) and imp[k] != val and rev.get(k) == imp[k]]
+    if len(ks) == 1:
+        roles["side"] = ks[0]
+    else:
+        problems.append(f"modules_that()/import_modules_that() switch {ks or 'no side marker'}")
+    ks = [k for k, val in w["import_modules_except_modules_that"].items() if val == Const(True) and k not in imp]
+    if len(ks) == 1:
+        roles["except"] = ks[0]
+    else:
+        problems.append(f"import_modules_except_modules_that() additionally sets {ks or 'nothing'}")
+    ks = [k for k, val in w["import_anything"].items() if val == Const(True) and k not in imp]
+    if len(ks) == 1:
+        roles["anything"] = ks[0]
+    else:
+        problems.append(f"import_anything() additionally sets {ks or 'nothing'}")
+    if "side" in roles:
+        for role, side_val in (("subject", w["modules_that"][roles["side"]]), ("object", imp[roles["side"]])):
+            def init(sym: S.Sym, st: S.State, side_val=side_val) -> None:
+                st.store[roles["side"]] = side_val
+
+            ww = writes("are_named", init)
+            ks = [k for k, val in ww.items() if k != roles["side"] and not isinstance(val, Const)]
+            if len(ks) == 1:
+                roles[role] = ks[0]
             else:
+                problems.append(f"are_named() with the {role} side selected stores into {ks or 'nothing'}")
+    if problems:
+        res.undecide("C13.R7", f"{rule.module.relpath}::Rule::fluent API roles", "cannot tell which fields the fluent API writes: " + "; ".join(problems), rule.module.relpath)
+        return None
+    return roles
+
+
+def initial_formula(ctx: Ctx, ci: ClassInfo, k: str) -> Formula | None:
+    """Formula over the atoms of attribute `k` that holds while `k` still has the value the constructor gave it
+    (None -> `k is None`, other falsy constants -> `not bool(k)`); None when the initial value is not such a constant."""
+    init = ctx.repo.lookup_method(ci, "__init__")
+    if init is None:
+        return None
+    cache = ctx.__dict__.setdefault("_init_runs", {})
+    if init.fq not in cache:
+        cache[init.fq] = ctx.run(init, stop=None)
+    sym = cache[init.fq]
+    rets = [o for o in sym.outcomes if o.kind == "return"]
+    if len(rets) != 1:
+        return None
+    v = current_value(sym, rets[0].store or {}, k)
+    if isinstance(v, Const) and v.value is None:
+        return atom(f"{k} is None")
+    if isinstance(v, Const) and not v.value:
+        return f_not(atom(f"bool({k})"))
+    cs = (rets[0].store or {}).get(key(v)) if isinstance(v, Coll) else None
+    if cs is not None and cs.exact and not cs.items:
+        return f_not(atom(f"bool({k})"))
+    return None
+
+
+def current_value(sym: S.Sym, store: dict, k: str) -> S.Val:
+    """Value found under the attribute chain `k` (e.g. self._configuration.should) in the given store."""
+    parts = k.split(".")
+    st = S.State({}, dict(store), [])
+    v: S.Val = Opq(parts[0], frozenset({parts[0]}), kind="param")
+    for a in parts[1:]:
+        v = sym.get_attr(v, a, st)
+    return v
+
+
+def rewritten_under(sym: S.Sym, o: S.Outcome, want: Formula, keys: list[str]) -> str | None:
+    """A role key whose value at outcome `o` is not the caller's value on some assignment satisfying want and the path."""
+    for k in keys:
+        v = current_value(sym, o.store or {}, k)
+        alts = v.alts if isinstance(v, Phi) else ((TRUE, v),)
+        for c, a in alts:
+            if not (isinstance(a, Opq) and a.key == k) and sat_path(o.path, f_and([c, want])):
+                return k
+    return None
+
+
+def run_rule_pipeline(ctx: Ctx, res: Result, roles: dict[str, str] | None) -> None:
+    repo = ctx.repo
+    rule = ctx.public_class("Rule")
+    if roles is None:
+        return
+    aa = ctx.method(rule, "assert_applies")
+    sym = ctx.run(aa)
+    bad = bad_outcomes(sym)
+    if not any(o.kind == "verdict" for o in bad):
+        res.undecide("C13.R2", repo.key(aa, "evaluation point"), "no call into an AssertionError site is reachable from Rule.assert_applies: the evaluation point was not recognised", where(aa, aa.node))
+        return
+    b = lambda r: atom(f"bool({roles[r]})")  # noqa: E731
+    verb = f_or([b(v) for v in FLUENT_VERBS])
+    init = {r: initial_formula(ctx, rule, roles[r]) for r in ("import", "subject", "object", *FLUENT_VERBS, "anything")}
+    unknown = [r for r, f in init.items() if f is None]
+    if unknown:
+        res.undecide("C13.R7", f"{aa.relpath}::Rule::initial configuration", f"Rule.__init__ does not give {', '.join(unknown)} a recognisable empty initial value (None / False / empty)", where(aa, aa.node))
+        return
+    no_verb = f_and([init[v] for v in FLUENT_VERBS])
+    wants: list[tuple[str, str, Formula, list[str]]] = [
+        ("C13.R7", "missing verb", no_verb, [roles[v] for v in FLUENT_VERBS]),
+        ("C13.R7", "missing import type", init["import"], [roles["import"]]),
+        ("C13.R7", "missing subject", f_and([f_not(b("anything")), f_not(b("subject"))]), [roles["subject"]]),
+        ("C13.R7", "missing object", f_and([f_not(b("anything")), f_not(b("object"))]), [roles["object"]]),
+        ("C13.R1", "'anything' with a verb other than should_not", f_and([b("anything"), f_not(b("should_not"))]), [roles["anything"], roles["should_not"]]),
+        ("C13.R5", "should_not combined with another verb", f_and([b("should_not"), f_or([b("should"), b("should_only")])]), [roles[v] for v in FLUENT_VERBS]),
+    ]
+    rej = rejections(sym)
+    dominance_ok = True
+    beh_ok = run_behavior_class(ctx, res, sym, roles)
+    for rid, label, want, keys in wants:
+        construct = f"{aa.relpath}::Rule.assert_applies::rejects {label}"
+        hits = [o for o in bad if consistent(o, want)]
+        if rid == "C13.R5" and not beh_ok:
+            continue  # consequence of the violated requirement-class obligation reported above
+        if not hits:
+            res.add(rid, construct, True, f"no evaluation, normal return or AssertionError is possible with {label} (`{show(want)}`)", where(aa, aa.node), kind="decision-table")
+            continue
+        o = hits[0]
+        k = rewritten_under(sym, o, want, keys)
+        others = f_and([f_not(w2) for _r, l2, w2, _k in wants if l2 != label])
+        rejected_somewhere = any((atoms_of(want) & atoms_of(r.cond)) and (sat_path(r.path, f_and([want, others])) or sat_path(r.path, want) and rid != "C13.R7") for r in rej)
+        if k is not None:
+            rule_id = "C13.R1"
+            detail = f"`{k.split('.')[-1]}` is rewritten before the check that must see the caller's value: with {label} (`{show(want)}`) {describe_outcome(o)} is reached - the invalid specification is evaluated instead of rejected"
+        elif rejected_somewhere or rid == "C13.R5":
+            rule_id = "C13.R2"
+            dominance_ok = False
+            detail = f"with {label} (`{show(want)}`) {describe_outcome(o)} is reached before / without the check that rejects it"
+        else:
+            rule_id = rid
+            detail = f"no check rejects {label}: with `{show(want)}` {describe_outcome(o)} is reached"
+        res.add(rule_id, construct, False, detail, where_o(o), kind="dominance")
+    res.add("C13.R2", f"{aa.relpath}::Rule.assert_applies::validation dominates evaluation", dominance_ok, "every rejecting check lies on all paths to the evaluation" if dominance_ok else "a verdict can be reached on a path that bypasses a rejecting check (see the obligations above)", where(aa, aa.node), kind="dominance")
+
+
+def run_behavior_class(ctx: Ctx, res: Result, pipeline: S.Sym, roles: dict[str, str]) -> bool:
+    """C13.R5 on the class that receives the three verb flags in its constructor (BehaviorRequirement by role)."""
+    repo = ctx.repo
+    verb_keys = {roles[v]: v for v in FLUENT_VERBS}
+    target = None
+    for ev in pipeline.events:
+        if ev.kind != "ctor":
+            continue
+        ci = repo.classes.get(ev.name)
+        init = repo.lookup_method(ci, "__init__") if ci else None
+        post = repo.lookup_method(ci, "__post_init__") if ci else None
+        if init is None and post is None:
+            continue
+        call = ev.node
+        if not isinstance(call, ast.Call):
+            continue
+        params = init.param_names[1:] if init is not None else [a for c in reversed(repo.mro(ci)) for a in c.ann_attrs]
+        bound: dict[str, str] = {}
+        for i, a in enumerate(ev.args[: len(call.args)]):
+            if i < len(params) and isinstance(a, (Opq, Phi)):
+                for k in verb_keys:
+                    if key(a) == k or (isinstance(a, Phi) and all(key(x) == k for _c, x in a.alts)):
+                        bound[verb_keys[k]] = params[i]
+        for kw, a in zip(call.keywords, ev.args[len(call.args):]):
+            for k in verb_keys:
+                if key(a) == k and kw.arg:
+                    bound[verb_keys[k]] = kw.arg
+        if len(bound) == 3:
+            target = (ci, init, bound)
+            break
+    if target is None:
+        return True  # no separate requirement class: the pipeline obligation alone decides
+    ci, init, bound = target
+    if init is None:
+        init = repo.lookup_method(ci, "__post_init__")
+        self_name = init.param_names[0]
+        bound = {k: f"{self_name}.{v}" for k, v in bound.items()}  # dataclass: the constructor arguments are the fields
+    sym = ctx.run(init, stop=None)
+    p = lambda v: atom(f"bool({bound[v]})")  # noqa: E731
+    want = f_and([p("should_not"), f_or([p("should"), p("should_only")])])
+    hits = [o for o in sym.outcomes if o.kind == "return" and consistent(o, want)]
+    bad_cls = [o for o in sym.outcomes if o.kind == "raise" and is_assertion_error(repo, o.exc)]
+    ok = not hits and not bad_cls
+    construct = f"{init.relpath}::{ci.name}::contradictory verbs"
+    if ok:
+        res.add("C13.R5", construct, True, f"constructing {ci.name} with should_not and should / should_only raises ({', '.join(sorted({o.exc.split('.')[-1] for o in rejections(sym)}))})", where(init, init.node), kind="decision-table")
+    elif bad_cls:
+        res.add("C13.R5", construct, False, f"{ci.name} signals contradictory verbs with AssertionError", where_o(bad_cls[0]), kind="decision-table")
+    else:
+        o = hits[0]
+        rj = f_or([r.cond for r in rejections(sym)])
+        res.add("C13.R5", construct, False, f"{ci.name} can be constructed with should_not combined with another verb: it raises under `{show(rj)[:200]}`, required: `{show(want)}` (should_not combined with should / should_only must be rejected)", where_o(o), kind="decision-table")
+    return ok
+
+
+# --------------------------------------------------------------------------- R2: subject or object first
+
+
+MODULE_SPECIFIERS = ("are_named", "are_sub_modules_of", "have_name_matching", "have_name_containing")
+
+
+def run_side_guard(ctx: Ctx, res: Result, roles: dict[str, str] | None) -> None:
+    """A module list given before `modules_that()` / an import type selected a side must be rejected."""
+    if roles is None:
+        return
+    rule = ctx.public_class("Rule")
+    want = initial_formula(ctx, rule, roles["side"])
+    if want is None:
+        res.undecide("C13.R2", f"{rule.module.relpath}::Rule::side marker", "Rule.__init__ does not give the subject/object marker a recognisable empty initial value", rule.module.relpath)
+        return
+    for name in MODULE_SPECIFIERS:
+        m = ctx.repo.lookup_method(rule, name)
+        if m is None or m.is_abstract:
+            continue
+        sym = ctx.run(m)
+        if not any(o.kind == "return" for o in sym.outcomes):
+            res.undecide("C13.R2", f"{m.relpath}::Rule.{name}::subject or object first", f"Rule.{name} never returns normally in the symbolic run: the method was not understood", where(m, m.node))
+            continue
+        hits = [o for o in bad_outcomes(sym) if consistent(o, want)]
+        ok = not hits
+        res.add(
+            "C13.R2",
+            f"{m.relpath}::Rule.{name}::subject or object first",
+            ok,
+            f"{name}() raises while neither a rule subject nor a rule object has been announced" if ok else f"{name}() can complete ({describe_outcome(hits[0])}) although no rule subject or object was announced (`{show(want)}`): an object given before a subject is accepted",
+            where_o(hits[0]) if hits else where(m, m.node),
+            kind="dominance",
+        )
+
+
+# --------------------------------------------------------------------------- R2 / R6: LayerRule
+
+
+def _ref_of_class(v: S.Val, fq: str) -> bool:
+    if isinstance(v, Ref):
+        return v.cls == fq
+    if isinstance(v, Phi):
+        return any(_ref_of_class(a, fq) for _c, a in v.alts)
+    return False
+
+
+def run_layer_rule(ctx: Ctx, res: Result) -> None:
+    repo = ctx.repo
+    lr = ctx.public_class("LayerRule")
+    rule = ctx.public_class("Rule")
+    based_on = ctx.method(lr, "based_on")
+    layers_that = ctx.method(lr, "layers_that")
+    # roles: the attribute that receives the architecture, the attribute that receives the freshly created module rule
+    arch_keys = [k for k, v in final_writes(ctx.run(based_on)).items() if isinstance(v, Opq) and v.kind == "param"]
+    rule_keys = [k for k, v in final_writes(ctx.run(layers_that)).items() if _ref_of_class(v, rule.fq)]
+    if len(arch_keys) != 1 or len(rule_keys) != 1:
+        res.undecide("C13.R2", f"{lr.module.relpath}::LayerRule::state roles", f"cannot tell where based_on() stores the architecture ({arch_keys}) / layers_that() the module rule ({rule_keys})", lr.module.relpath)
+        return
+    k_arch, k_rule = arch_keys[0], rule_keys[0]
+    no_rule = initial_formula(ctx, lr, k_rule) or atom(f"{k_rule} is None")
+    no_arch = initial_formula(ctx, lr, k_arch) or atom(f"{k_arch} is None")
+    n = 0
+    for name, m in sorted(lr.methods.items()):
+        if name.startswith("_") or m.is_property or m.is_abstract:
+            continue
+        if m is based_on:
+            want, label = f_not(no_arch), "a second based_on()"
+        elif m is layers_that:
+            want, label = no_arch, "layers_that() before based_on()"
+        else:
+            want, label = no_rule, f"{name}() before layers_that()"
+        sym = ctx.run(m)
+        if not bad_outcomes(sym):
+            res.undecide("C13.R2", f"{m.relpath}::LayerRule.{name}::ordering guard", f"LayerRule.{name} neither returns nor evaluates in the symbolic run: the method was not understood", where(m, m.node))
+            continue
+        hits = [o for o in bad_outcomes(sym) if consistent(o, want)]
+        n += 1
+        ok = not hits
+        res.add(
+            "C13.R2",
+            f"{m.relpath}::LayerRule.{name}::ordering guard",
+            ok,
+            f"{label} raises a configuration error" if ok else f"{label} is not rejected: with `{show(want)}` {describe_outcome(hits[0])} is reached - the incomplete call chain continues (or fails with an unspecific error) instead of raising a configuration error",
+            where_o(hits[0]) if hits else where(m, m.node),
+            kind="dominance",
+        )
+    res.floor("C13.R2.layer", 4, n)
+    # R6: every requested layer name indexes the architecture with a raising subscript
+    an = ctx.method(lr, "are_named")
+    p = an.param_names[1]
+    sym = ctx.run(an)
+    rets = [o for o in sym.outcomes if o.kind == "return"]
+    ok, detail = False, "are_named() never uses a requested layer name as a raising subscript of the layer definition: a rule naming a layer that was never defined gets a verdict"
+    for ev in sym.events:
+        if ev.kind != "subscript" or not ev.args:
+            continue
+        idx = ev.args[0]
+        if not (isinstance(idx, Opq) and idx.kind in ("elem", "param") and idx.deps == frozenset({p})):
+            continue
+        if not any(m_[0] == "b" and m_[1] == "dict" for m_ in members(ev.recv_type)):
+            continue
+        if swallowed(sym, ev, {"KeyError", "LookupError", "Exception", "BaseException", "<bare>"}, bad_outcomes(sym)):
+            detail = f"the KeyError of `{norm(ev.node, 50)}` for an undefined layer is caught and are_named() carries on"
+            continue
+        if idx.kind == "param":
+            good = all(must(o.path, ev.path) for o in rets)
+        else:
+            loops = [lc for lc in ev.loops if lc.elem is not None and idx.key.startswith(lc.elem.key)]
+            good = bool(loops) and loops[0].elem.meta and loops[0].elem.meta[0] == p and all(must(o.path, loops[0].pre_path) for o in rets) and must(tuple(loops[0].pre_path) + (loops[0].iter_atom,), ev.path)
+        if good:
+            ok, detail = True, f"each requested layer name is looked up with `{norm(ev.node, 50)}` (KeyError for an undefined layer) on every path"
+            break
+        detail = f"`{norm(ev.node, 50)}` is not evaluated for every requested layer on every path: a rule naming a layer that was never defined can get a verdict"
+    if not rets:
+        res.undecide("C13.R6", repo.key(an, "layer lookup"), "LayerRule.are_named never returns normally in the symbolic run", where(an, an.node))
+    else:
+        res.add("C13.R6", f"{an.relpath}::LayerRule.are_named::every requested layer is looked up", ok, detail, where(an, an.node), kind="dominance")
+
+
+# --------------------------------------------------------------------------- R2: DiagramRule (file check, start/end tags)
+
+
+START_TAG, END_TAG = "@startuml", "@enduml"
+
+
+def _const_texts(deps: frozenset) -> str:
+    return " ".join(sorted(d[6:] for d in deps if d.startswith("const:")))
+
+
+def run_diagram_rule(ctx: Ctx, res: Result) -> None:
+    repo = ctx.repo
+    dr = ctx.public_class("DiagramRule")
+    from_file = ctx.method(dr, "from_file")
+    aa = ctx.method(dr, "assert_applies")
+    file_keys = [k for k, v in final_writes(ctx.run(from_file)).items() if isinstance(v, Opq) and v.kind == "param"]
+    if len(file_keys) != 1:
+        res.undecide("C13.R2", f"{dr.module.relpath}::DiagramRule::state roles", f"cannot tell where from_file() stores the diagram path ({file_keys})", dr.module.relpath)
+        return
+    k_file = file_keys[0]
+    sym = ctx.run(aa)
+    bad = bad_outcomes(sym)
+    if not any(o.kind == "verdict" for o in bad):
+        res.undecide("C13.R2", repo.key(aa, "evaluation point"), "no call into an AssertionError site is reachable from DiagramRule.assert_applies", where(aa, aa.node))
+        return
+    want = initial_formula(ctx, dr, k_file) or atom(f"{k_file} is None")
+    hits = [o for o in bad if consistent(o, want)]
+    # reading the diagram without a path is no configuration error either: the check has to come before the file is opened
+    opened = [ev for ev in sym.events if ev.kind == "call" and ev.name == "open" and sat_path(ev.path, want)]
+    ok = not hits and not opened
+    if ok:
+        detail = "a diagram rule without a file raises before the diagram is read or evaluated"
+    elif opened:
+        detail = f"`{norm(opened[0].node, 50)}` in {opened[0].ctx.qualname} runs although no diagram file was given (`{show(want)}`): the missing file is not rejected with a configuration error before parsing"
+    else:
+        detail = f"a diagram rule without a file is not rejected: with `{show(want)}` {describe_outcome(hits[0])} is reached"
+    res.add("C13.R2", f"{aa.relpath}::DiagramRule.assert_applies::file check dominates parsing", ok, detail, where_o(hits[0]) if hits else where(aa, aa.node), kind="dominance")
+    # start / end tags: for each tag, a search whose "tag absent" outcome leads to a raise and to no verdict
+    KINDS = ("search", "find", "index", "partsep", "split", "contains")
+    searches = [ev for ev in sym.events if ev.kind == "call" and isinstance(ev.result, Opq) and ev.result.kind in KINDS]
+    tagged = [ev for ev in searches if START_TAG in _const_texts(ev.result.deps) or END_TAG in _const_texts(ev.result.deps)]
+    construct = f"{dr.module.relpath}::DiagramRule.assert_applies::missing tags raise"
+    if not tagged:
+        res.undecide("C13.R2", construct, f"no search of the diagram text for {START_TAG} / {END_TAG} (re.search / re.match / str.find / index / partition / split / in) is reachable from DiagramRule.assert_applies: the tag extraction was not recognised", where(aa, aa.node))
+        return
+
+    def absent(ev: S.Event) -> Formula:
+        r = ev.result
+        if r.kind == "search":
+            return atom(f"{r.key} is None")
+        if r.kind in ("partsep", "contains"):
+            return f_not(atom(f"bool({r.key})"))
+        return atom(f"notfound({r.key})")
+
+    def judge(ev: S.Event) -> tuple[bool, S.Outcome | None]:
+        """(the 'tag absent' outcome of this search is rejected and reaches no verdict, an escaping verdict if any)"""
+        if ev.result.kind == "index":
+            if swallowed(sym, ev, {"ValueError", "Exception", "BaseException", "<bare>"}, bad):
+                return False, None
+            esc = [o for o in bad if not must(o.path, ev.path)]
+            return not esc, (esc[0] if esc else None)
+        nf = absent(ev)
+        esc = [o for o in bad if consistent(o, nf)]
+        return (not esc and any(sat_path(x.path, nf) for x in rejections(sym))), (esc[0] if esc else None)
+
+    verdicts = {id(ev): judge(ev) for ev in tagged}
+    problems: list[tuple[str, str, str]] = []
+    covered_by: dict[str, S.Event] = {}
+    for tag in (START_TAG, END_TAG):
+        # a search "covers" a tag when its result depends on the tag (needle, or a range / receiver computed from a search for it)
+        cands = [ev for ev in tagged if tag in _const_texts(ev.result.deps)]
+        good = [ev for ev in cands if verdicts[id(ev)][0]]
+        if good:
+            covered_by[tag] = good[0]
+            continue
+        own = [ev for ev in cands if tag in _const_texts(ev.result.meta[0] if ev.result.meta else frozenset())] or cands
+        blamed = [ev for ev in own if verdicts[id(ev)][1] is not None]
+        if blamed:
+            ev = blamed[0]
+            o = verdicts[id(ev)][1]
+            loc_ = f"{ev.ctx.relpath}:{getattr(ev.node, 'lineno', 0)}"
+            if must(o.path, ev.path):
+                problems.append((tag, f"when `{norm(ev.node, 60)}` in {ev.ctx.qualname} does not find {tag}, {describe_outcome(o)} is still reached (the 'not found' outcome of this search is never tested): a diagram without {tag} no longer raises a parsing error", loc_))
+            else:
+                problems.append((tag, f"{describe_outcome(o)} is reachable on a path on which the search for {tag} (`{norm(ev.node, 50)}`) does not run in this call (`{show(ev.cond)[:100]}` does not hold): nothing rejects a diagram without {tag} there", loc_))
+        elif own:
+            problems.append((tag, "?", ""))
+        else:
+            problems.append((tag, "-", ""))
+    real = [p_ for p_ in problems if p_[1] not in ("?", "-")]
+    if real:
+        res.add("C13.R2", construct, False, "; ".join(p_[1] for p_ in real), real[0][2], kind="dominance")
+    elif problems:
+        missing = [p_[0] for p_ in problems]
+        res.undecide("C13.R2", construct, f"no recognised search of the diagram text depends on {' / '.join(missing)}, or its 'not found' outcome is not tested in a recognised way ({', '.join(norm(ev.node, 40) for ev in tagged[:3])})", where(aa, aa.node))
+    else:
+        evs = list({id(e_): e_ for e_ in covered_by.values()}.values())
+        raised = sorted({x.exc.split(".")[-1] for x in rejections(sym) for e_ in evs if e_.result.kind != "index" and sat_path(x.path, absent(e_))})
+        res.add("C13.R2", construct, True, f"a diagram without {START_TAG} / {END_TAG} ({', '.join('`' + norm(e_.node, 40) + '`' for e_ in evs)} finds nothing) raises {', '.join(raised) or 'the error of the search itself'} and reaches no verdict", where(aa, aa.node), kind="dominance")
+
+
+# --------------------------------------------------------------------------- R2: entry point options
+
+
+def run_entry_point(ctx: Ctx, res: Result) -> None:
+    ge = ctx.public_func("get_evaluable_architecture")
+    params = ge.param_names
+    needed = ["root_path", "module_path", "exclusions", "exclude_external_libraries", "regex_exclusions", "external_exclusions", "regex_external_exclusions"]
+    if any(p not in params for p in needed):
+        raise AnalysisError(f"public signature of get_evaluable_architecture changed: {params}")
+    # helpers of the entry point are followed wherever they live; the scan / graph machinery itself is not interpreted
+    sym = ctx.run(ge, descend=lambda caller, callee: callee.module is ge.module or "eval_structure" not in callee.module.name)
+    rets = [o for o in sym.outcomes if o.kind in ("return", "verdict")]
+    if not rets:
+        res.undecide("C13.R2", f"{ge.relpath}::get_evaluable_architecture::returns", "no normal return found in the symbolic run", where(ge, ge.node))
+        return
+    b = lambda p: atom(f"bool({p})")  # noqa: E731
+    expected = {
+        "exclusions xor regex_exclusions": f_and([b("regex_exclusions"), b("exclusions")]),
+        "external_exclusions xor regex_external_exclusions": f_and([b("regex_external_exclusions"), b("external_exclusions")]),
+        "external patterns need included externals": f_and([b("exclude_external_libraries"), f_or([b("external_exclusions"), b("regex_external_exclusions")])]),
+    }
+    for label, want in expected.items():
+        hits = [o for o in rets if consistent(o, want)]
+        ae = [o for o in sym.outcomes if o.kind == "raise" and is_assertion_error(ctx.repo, o.exc) and consistent(o, want)]
+        ok = not hits and not ae
+        res.add(
+            "C13.R2",
+            f"{ge.relpath}::{ge.qualname}::guard {label}",
+            ok,
+            f"rejected before the architecture is built: {show(want)}" if ok else f"the option combination `{show(want)}` (on the caller's values) is no longer rejected: {describe_outcome((hits or ae)[0])} is reached",
+            where_o((hits or ae)[0]) if (hits or ae) else where(ge, ge.node),
+            kind="decision-table",
+        )
+    # module_path outside root_path: pathlib's relative_to (raises ValueError) on every path, uncaught
+    rel = [ev for ev in sym.events if ev.kind == "call" and ev.name == "relative_to" and ev.recv is not None and "module_path" in sym.deps(ev.recv) and ev.args and "root_path" in sym.deps(ev.args[0])]
+    ok, detail = False, "module_path.relative_to(root_path) is no longer evaluated: a module_path outside root_path is not rejected before the scan"
+    for ev in rel:
+        if swallowed(sym, ev, {"ValueError", "Exception", "BaseException", "<bare>"}, rets):
+            detail = f"the ValueError of `{norm(ev.node, 50)}` is caught and the scan goes ahead: a module_path outside root_path is tolerated"
+            continue
+        esc = [o for o in rets if not must(o.path, ev.path)]
+        if not esc:
+            ok, detail = True, f"`{norm(ev.node, 50)}` (ValueError for a module_path outside root_path) is evaluated on every path to the scan"
+            break
+        detail = f"`{norm(ev.node, 50)}` is evaluated only under `{show(ev.cond)[:120]}`: {describe_outcome(esc[0])} is reachable without it, a module_path outside root_path is tolerated"
+    res.add("C13.R2", f"{ge.relpath}::{ge.qualname}::module_path inside root_path", ok, detail, where(ge, ge.node), kind="dominance")
+
+
+# --------------------------------------------------------------------------- R6: unknown names reach a raising lookup
+
+
+QUERY_METHODS = ("get_dependencies", "any_dependencies_from_dependents_to_modules_other_than_dependent_upons", "any_other_dependencies_on_dependent_upons_than_from_dependents")
+CATCHES_LOOKUP = {"NetworkXError", "NetworkXException", "NodeNotFound", "KeyError", "LookupError", "Exception", "BaseException", "<bare>"}
+
+
+def _filter_kind(ctx: Ctx, fi: FuncInfo, p: str) -> str | None:
+    """'scalar' / 'collection' for parameters typed (collections of) module filters, 'graph' for the graph parameter."""
+    try:
+        t = ctx.T.param_type(fi, p)
+    except Exception:  # noqa: BLE001
+        return None
+    def is_filter(m) -> bool:
+        if m[0] != "cls":
+            return False
+        ci = ctx.repo.classes.get(m[1])
+        return ci is not None and any(c.name in ("ModuleFilter",) for c in ctx.repo.mro(ci))
+    def is_graph(m) -> bool:
+        if m[0] != "cls":
+            return False
+        ci = ctx.repo.classes.get(m[1])
+        return ci is not None and any(c.name == "AbstractGraph" for c in ctx.repo.mro(ci))
+    ms = members(t)
+    if any(is_graph(m) for m in ms):
+        return "graph"
+    if any(is_filter(m) for m in ms):
+        return "scalar"
+    for m in ms:
+        if m[0] == "b" and m[1] in ("set", "frozenset", "list", "seq", "iter", "tuple") and m[2] and any(is_filter(x) for a in m[2] for x in members(a)):
+            return "collection"
+    return None
+
+
+def search_functions(ctx: Ctx) -> list[FuncInfo]:
+    """Module-level searches that the query methods of the EvaluableArchitecture implementation hand module filters to."""
+    repo = ctx.repo
+    proto = ctx.public_class("EvaluableArchitecture")
+    impls = [c for c in repo.classes.values() if c is not proto and proto in repo.mro(c) and all((m := repo.lookup_method(c, q)) is not None and not m.is_abstract for q in QUERY_METHODS)]
+    out: list[FuncInfo] = []
+    for c in impls:
+        seen: list[FuncInfo] = []
+        work = [repo.lookup_method(c, q) for q in QUERY_METHODS]
+        while work:
+            f = work.pop()
+            if f in seen:
+                continue
+            seen.append(f)
+            for g in callees_of(repo, f, byname=False):
+                if g.cls is c or (g.outer is not None and g.cls is c):
+                    work.append(g)
+                elif g.cls is None and g.outer is None and g not in out:
+                    kinds = [_filter_kind(ctx, g, p) for p in g.param_names]
+                    if "graph" in kinds and ("scalar" in kinds or "collection" in kinds):
+                        out.append(g)
+    return out
+
+
+def _is_raising_lookup(ev: S.Event) -> bool:
+    return ev.kind == "call" and ev.name in S.RAISING_NX and any(m[0] == "lib" and m[1].startswith("networkx") for m in members(ev.recv_type))
+
+
+def run_lookups(ctx: Ctx, res: Result) -> None:
+    repo = ctx.repo
+    funcs = search_functions(ctx)
+    n = 0
+    for fi in funcs:
+        sym = ctx.run(fi, stop=None)
+        rets = [o for o in sym.outcomes if o.kind == "return"]
+        if not rets:
+            res.undecide("C13.R6", repo.key(fi, "returns"), "no normal return found in the symbolic run", where(fi, fi.node))
+            continue
+        lookups = [ev for ev in sym.events if _is_raising_lookup(ev) and ev.args]
+        kinds = {p: _filter_kind(ctx, fi, p) for p in fi.param_names}
+        scalars = [p for p, k in kinds.items() if k == "scalar"]
+        for p, k in kinds.items():
+            if k not in ("scalar", "collection"):
                 continue
             n += 1
-            g = guard_formula(m, node)
-            ok = implies(g, f_not(atom(f"{tgt} is None")))
-            res.add("C13.R2", repo.key(m, stmt_of(node)) + f" [{tgt} not None]", ok, f"`{norm(node, 60)}` is only reached when {tgt} has been set" if ok else f"`{norm(node, 60)}` in {m.qualname} is reached while {tgt} may still be None: the incomplete call chain fails with AttributeError/TypeError or silently continues instead of a configuration error", where(m, node), kind="dominance")
-        for r in own_nodes(m.node):
-            if isinstance(r, ast.Raise):
-                name = exception_class_name(repo, m, r.exc)
-                if not name.endswith("ImproperlyConfigured"):
-                    res.add("C13.R2", repo.key(m, _if_of(r)) + " [error class]", False, f"{m.qualname} rejects with {name} instead of a configuration error", where(m, r), kind="structural")
-    res.floor("C13.R2.layer", 13, n)
-    # based_on twice / layers_that without architecture
-    for name, tgt, want_none in (("based_on", "self._architecture", False), ("layers_that", "self._architecture", True)):
-        m = lr.methods.get(name)
-        if m is None:
-            raise AnalysisError(f"LayerRule.{name} not found")
-        raises = [r for r in own_nodes(m.node) if isinstance(r, ast.Raise)]
-        ok = False
-        for r in raises:
-            g = guard_formula(m, r)
-            a = atom(f"{tgt} is None")
-            if equivalent(g, a if want_none else f_not(a)):
-                ok = True
-        res.add("C13.R2", f"{m.relpath}::{m.qualname}::ordering guard", ok, f"{name} rejects when {tgt} is {'missing' if want_none else 'already set'}" if ok else f"{name} no longer rejects when {tgt} is {'missing' if want_none else 'already set'}", where(m, m.node), kind="decision-table")
-    # DiagramRule
-    dr = repo.cls(DIAGRAM_RULE, "DiagramRule")
-    da = dr.methods["assert_applies"]
-    val = [c for c in calls_in(da.node) if is_attr_call(c, "_assert_required_configuration_present")]
-    parse = [c for c in calls_in(da.node) if is_attr_call(c, "parse")]
-    ok = len(val) == 1 and len(parse) == 1 and cfg_of(da).dominates(stmt_of(val[0]), stmt_of(parse[0])) and not conds(da, val[0])
-    res.add("C13.R2", f"{da.relpath}::{da.qualname}::file check dominates parsing", ok, "the diagram file check runs before parsing" if ok else "the diagram is parsed without the file check", where(da, da.node), kind="dominance")
-    dv = dr.methods.get("_assert_required_configuration_present")
-    raises = [r for r in own_nodes(dv.node) if isinstance(r, ast.Raise)] if dv else []
-    ok = bool(raises) and any(equivalent(guard_formula(dv, r), atom("self._file_path is None")) for r in raises)
-    res.add("C13.R2", f"{dr.module.relpath}::DiagramRule._assert_required_configuration_present::guard", ok, "raises exactly when no file was given" if ok else "the diagram-rule validator does not raise exactly when the file path is missing", kind="decision-table")
-    # entry point option guards
-    ge = repo.func(ENTRY, "get_evaluable_architecture")
-    gen = [c for c in calls_in(ge.node) if dotted(c.func) == "generate_graph"]
-    if len(gen) != 1:
-        raise AnalysisError("get_evaluable_architecture: generate_graph call not found")
-    expected = {
-        "exclusions xor regex_exclusions": f_and([atom("bool(regex_exclusions)"), atom("bool(exclusions)")]),
-        "external_exclusions xor regex_external_exclusions": f_and([atom("bool(regex_external_exclusions)"), atom("bool(external_exclusions)")]),
-        "external patterns need included externals": f_and([atom("bool(exclude_external_libraries)"), f_or([atom("bool(external_exclusions)"), atom("bool(regex_external_exclusions)")])]),
-    }
-    raises = [r for r in own_nodes(ge.node) if isinstance(r, ast.Raise)]
-    gcfg = cfg_of(ge)
-    dominating = [r for r in raises if gcfg.dominates(_if_of(r), stmt_of(gen[0])) and not is_assertion_error(repo, exception_class_name(repo, ge, r.exc))]
-    rejected = f_or([guard_formula(ge, r) for r in dominating])
-    for label, want in expected.items():
-        # every option combination of this kind must run into one of the raises that dominate the scan
-        ok = implies(want, rejected)
-        hit = [r for r in dominating if satisfiable(f_and([guard_formula(ge, r), want]))]
-        ok = ok and bool(hit)
-        # the guard must see the caller's values: nothing it reads may be re-assigned before it
-        if ok:
-            reads = {a[5:-1] for a in atoms_of(want)}
-            for s in ge.body:
-                if s is _if_of(hit[0]):
-                    break
-                if isinstance(s, (ast.Assign, ast.AugAssign)) and any(dotted(t) in reads for t in (s.targets if isinstance(s, ast.Assign) else [s.target])):
-                    ok = False
-                if isinstance(s, ast.If) and any(isinstance(x, ast.Assign) and any(dotted(t) in reads for t in x.targets) for x in ast.walk(s)):
-                    ok = False
-        res.add("C13.R2", f"{ge.relpath}::{ge.qualname}::guard {label}", ok, f"rejected before the scan: {show(want)}" if ok else f"the option combination `{show(want)}` is no longer rejected (on the caller's values) before the architecture is built", where(ge, ge.node), kind="decision-table")
-    rel = [c for c in calls_in(ge.node) if is_attr_call(c, "relative_to")]
-    ok = len(rel) >= 1 and gcfg.dominates(stmt_of(rel[0]), stmt_of(gen[0])) and not conds(ge, rel[0]) and not any(isinstance(a, (ast.Try,)) for a in ancestors(rel[0]))
-    res.add("C13.R2", f"{ge.relpath}::{ge.qualname}::module_path inside root_path", ok, "module_path.relative_to(root_path) (raising for a path outside the root) precedes the scan" if ok else "a module_path outside root_path is no longer rejected before the scan", where(ge, ge.node), kind="dominance")
-    # Rule._set_modules
-    sm = rule.methods.get("_set_modules")
-    raises = [r for r in own_nodes(sm.node) if isinstance(r, ast.Raise)]
-    stores = [s for s in own_nodes(sm.node) if isinstance(s, ast.Assign) and dotted(s.targets[0]).startswith("self._configuration.")]
-    ok = bool(raises) and any(equivalent(guard_formula(sm, r), atom("self._modules_to_check_to_be_specified_next is None")) for r in raises) and stores and all(cfg_of(sm).dominates(_if_of(raises[0]), s) for s in stores)
-    res.add("C13.R2", f"{sm.relpath}::{sm.qualname}::subject or object first", ok, "module lists are stored only after `modules_that()` / an import type selected a side" if ok else "a module list can be stored before a rule subject or object was announced", where(sm, sm.node), kind="dominance")
-    # diagram tags
-    pp = repo.cls(DIAGRAM_PARSER, "PumlParser")
-    rm = pp.methods.get("_remove_content_outside_start_and_end_tags")
-    if rm is None:
-        raise AnalysisError("PumlParser._remove_content_outside_start_and_end_tags not found")
-    rets = [s for s in own_nodes(rm.node) if isinstance(s, ast.Return)]
-    raises = [r for r in own_nodes(rm.node) if isinstance(r, ast.Raise)]
-    mvar = None
-    for s in own_nodes(rm.node):
-        if isinstance(s, ast.Assign) and isinstance(s.value, ast.Call) and (repo.resolve_name(rm.module, s.value.func) or "").startswith("re."):
-            if (repo.resolve_name(rm.module, s.value.func) or "") in ("re.search", "re.match", "re.fullmatch"):
-                mvar = dotted(s.targets[0])
-    mtrue = to_formula(ast.Name(id=mvar or "_", ctx=ast.Load()), copy_prop(rm))
-    ok = mvar is not None and len(raises) == 1 and all(implies(guard_formula(rm, r), mtrue) for r in rets) and implies(guard_formula(rm, raises[0]), f_not(mtrue)) and "ParsingError" in exception_class_name(repo, rm, raises[0].exc) and not any(isinstance(r.value, ast.Constant) for r in rets)
-    res.add("C13.R2", f"{rm.relpath}::{rm.qualname}::missing tags raise", ok, "a file without @startuml/@enduml raises PumlParsingError" if ok else "a diagram without start/end tags no longer raises a parsing error on the no-match path", where(rm, rm.node), kind="dominance")
+            mine = [ev for ev in lookups if sym.deps(ev.args[0]) == frozenset({p})]
+            live = [ev for ev in mine if not swallowed(sym, ev, CATCHES_LOOKUP, rets)]
+            ok, detail, loc = False, "", where(fi, fi.node)
+            if k == "scalar":
+                direct = [ev for ev in live if not ev.loops]
+                failing = [o for o in rets if not any(must(o.path, ev.path) for ev in direct)]
+                ok = not failing
+                if ok:
+                    detail = f"`{p}` reaches networkx' raising {direct[0].name}() on every path before the function returns"
+                else:
+                    o = failing[0]
+                    loc = where_o(o)
+                    detail = f"{describe_outcome(o)} is reachable without `{p}` having been handed to a raising graph lookup"
+            else:
+                good = None
+                for ev in live:
+                    if not ev.loops:
+                        continue
+                    lc = ev.loops[0]
+                    if lc.elem is None or not lc.elem.meta or lc.elem.meta[0] != p:
+                        continue
+                    skip = f_or([atom("{} == {}".format(*sorted([lc.elem.key, q]))) for q in scalars])
+                    if all(not o.loops and must(o.path, lc.pre_path) for o in rets) and must(tuple(lc.pre_path) + (lc.iter_atom, f_not(skip)), ev.path):
+                        good = ev
+                        break
+                ok = good is not None
+                if ok:
+                    detail = f"every element of `{p}` is handed to networkx' raising {good.name}() on every path (skipped at most when equal to {' / '.join(scalars) or 'nothing'}, which is looked up itself)"
+                else:
+                    detail = f"an element of `{p}` can escape the raising graph lookup"
+            if not ok:
+                if mine and not live:
+                    detail += f": the error of `{norm(mine[0].node, 50)}` for an unknown node is caught by a handler ({', '.join(sorted(set(mine[0].handlers) & CATCHES_LOOKUP))})"
+                elif live:
+                    detail += f" (the lookup `{norm(live[0].node, 40)}` in {live[0].ctx.qualname} only happens under `{show(live[0].cond)[:160]}`)"
+                detail += " - a rule naming a module that does not exist gets a verdict instead of a lookup error"
+            res.add("C13.R6", f"{fi.relpath}::{fi.qualname}::lookup of {p}", ok, detail, loc, kind="dominance")
+    res.floor("C13.R6", 3, n)
 
 
-# --------------------------------------------------------------------------- R3 / R4
+# --------------------------------------------------------------------------- R3 / R4: who raises AssertionError, who catches what
 
 
-VERDICT_SITES = {(MATCHER, "RuleMatcher.match"), (MULTI, "MultipleRuleApplier.assert_applies")}
 GRAPH_ACCESS = {"successors", "predecessors", "get_edge_data", "direct_successor_nodes", "direct_predecessor_nodes", "parent_child_relationship", "neighbors", "in_edges", "out_edges"}
 LOOKUP_ERRORS = {"KeyError", "LookupError", "IndexError", "NetworkXError", "NetworkXException", "NodeNotFound", "ValueError", "TypeError", "AttributeError", "RuntimeError"}
+
+
+class VerdictTaint:
+    """Which values derive from an evaluation ('EV': anything computed from / with an EvaluableArchitecture argument) or from a
+    caught AssertionError ('AE').  Flow-insensitive per function, fields per class, inter-procedural through resolved calls,
+    deliberately generous (any call that receives a tainted value returns a tainted value)."""
+
+    def __init__(self, repo: Repo) -> None:
+        self.repo = repo
+        self.T = types_of(repo)
+        self.names: dict[str, dict[str, frozenset]] = {}  # function -> local name -> tags
+        self.fields: dict[tuple[str, str], frozenset] = {}
+        self.rets: dict[str, frozenset] = {}
+        self.changed = True
+        self._nodes: dict[str, list] = {}
+        self._callees: dict[int, list] = {}
+        proto = [c for c in repo.classes.values() if c.name == "EvaluableArchitecture"]
+        self.ev_classes = {c.fq for c in repo.classes.values() if any(p in repo.mro(c) for p in proto)}
+        for f in repo.all_functions():
+            env: dict[str, frozenset] = {}
+            if not isinstance(f.node, ast.Lambda):
+                for prm in f.params:
+                    try:
+                        t = self.T.param_type(f, prm.arg)
+                    except Exception:  # noqa: BLE001
+                        t = ("unknown",)
+                    if any(m[0] == "cls" and m[1] in self.ev_classes for m in members(t)):
+                        env[prm.arg] = frozenset({"EV"})
+            for n in own_nodes(f.node):
+                if isinstance(n, ast.ExceptHandler) and n.name and n.type is not None:
+                    tys = [(repo.resolve_name(f.module, e) or dotted(e)).split(".")[-1] for e in (n.type.elts if isinstance(n.type, ast.Tuple) else [n.type])]
+                    if "AssertionError" in tys:
+                        env[n.name] = frozenset({"AE"})
+            self.names[f.fq] = env
+        rounds = 0
+        while self.changed and rounds < 12:
+            self.changed = False
+            rounds += 1
+            for f in repo.all_functions():
+                self._function(f)
+
+    def _join(self, table: dict, k, tags: frozenset) -> None:
+        if tags and not tags <= table.get(k, frozenset()):
+            table[k] = table.get(k, frozenset()) | tags
+            self.changed = True
+
+    def tags(self, f: FuncInfo, e: ast.AST | None) -> frozenset:
+        if e is None:
+            return frozenset()
+        env = self.names.get(f.fq, {})
+        out = frozenset()
+        for n in ast.walk(e):
+            if isinstance(n, ast.Name) and isinstance(n.ctx, ast.Load):
+                out |= env.get(n.id, frozenset())
+                if f.outer is not None:
+                    out |= self.names.get(f.outer.fq, {}).get(n.id, frozenset())
+            elif isinstance(n, ast.Attribute) and isinstance(n.ctx, ast.Load) and isinstance(n.value, ast.Name) and n.value.id in ("self", "cls") and f.cls is not None:
+                for c in self.repo.mro(f.cls):
+                    out |= self.fields.get((c.fq, n.attr), frozenset())
+            elif isinstance(n, ast.Call):
+                for c in self.callees(f, n):
+                    out |= self.rets.get(c.fq, frozenset())
+        return out
+
+    def callees(self, f: FuncInfo, n: ast.Call) -> list[FuncInfo]:
+        k = id(n)
+        if k not in self._callees:
+            try:
+                cs, _how = self.T.callees(f, n, byname_fallback=False)
+            except Exception:  # noqa: BLE001
+                cs = []
+            self._callees[k] = cs
+        return self._callees[k]
+
+    def _bind(self, f: FuncInfo, target: ast.AST, tags: frozenset) -> None:
+        if not tags:
+            return
+        for n in ast.walk(target):
+            if isinstance(n, ast.Name):
+                self._join(self.names[f.fq], n.id, tags)
+            elif isinstance(n, ast.Attribute) and isinstance(n.value, ast.Name) and n.value.id == "self" and f.cls is not None:
+                self._join(self.fields, (f.cls.fq, n.attr), tags)
+
+    def _function(self, f: FuncInfo) -> None:
+        if f.fq not in self._nodes:
+            self._nodes[f.fq] = [n for n in own_nodes(f.node) if isinstance(n, (ast.Assign, ast.AnnAssign, ast.AugAssign, ast.NamedExpr, ast.For, ast.AsyncFor, ast.comprehension, ast.With, ast.AsyncWith, ast.Return, ast.Yield, ast.YieldFrom, ast.Call))]
+        for n in self._nodes[f.fq]:
+            if isinstance(n, ast.Assign):
+                t = self.tags(f, n.value)
+                for tg in n.targets:
+                    self._bind(f, tg, t)
+            elif isinstance(n, (ast.AnnAssign, ast.AugAssign, ast.NamedExpr)) and n.value is not None:
+                self._bind(f, n.target, self.tags(f, n.value))
+            elif isinstance(n, (ast.For, ast.AsyncFor)):
+                self._bind(f, n.target, self.tags(f, n.iter))
+            elif isinstance(n, ast.comprehension):
+                self._bind(f, n.target, self.tags(f, n.iter))
+            elif isinstance(n, (ast.With, ast.AsyncWith)):
+                for it in n.items:
+                    if it.optional_vars is not None:
+                        self._bind(f, it.optional_vars, self.tags(f, it.context_expr))
+            elif isinstance(n, ast.Return) and n.value is not None:
+                self._join(self.rets, f.fq, self.tags(f, n.value))
+            elif isinstance(n, (ast.Yield, ast.YieldFrom)) and n.value is not None:
+                self._join(self.rets, f.fq, self.tags(f, n.value))
+            elif isinstance(n, ast.Call):
+                argt = frozenset()
+                for a in [*n.args, *[k.value for k in n.keywords]]:
+                    argt |= self.tags(f, a)
+                if isinstance(n.func, ast.Attribute):
+                    recv_t = self.tags(f, n.func.value)
+                    if n.func.attr in S.COLL_MUTATORS and argt:
+                        self._bind(f, n.func.value, argt)  # x.append(tainted) taints x
+                    argt_all = argt | recv_t
+                else:
+                    argt_all = argt
+                for c in self.callees(f, n):
+                    params = c.param_names[1:] if (c.is_method and not c.is_staticmethod) else c.param_names
+                    for i, a in enumerate(n.args):
+                        if i < len(params):
+                            self._join(self.names.setdefault(c.fq, {}), params[i], self.tags(f, a))
+                    for k in n.keywords:
+                        if k.arg in c.param_names:
+                            self._join(self.names.setdefault(c.fq, {}), k.arg, self.tags(f, k.value))
+                    # a call that receives evaluation data yields evaluation data
+                    self._join(self.rets, c.fq, frozenset())
+        if isinstance(f.node, ast.Lambda):
+            self._join(self.rets, f.fq, self.tags(f, f.node.body))
+
+    def expr(self, f: FuncInfo, e: ast.AST | None) -> frozenset:
+        """Tags of an expression, calls with tainted inputs included."""
+        if e is None:
+            return frozenset()
+        out = self.tags(f, e)
+        for n in ast.walk(e):
+            if isinstance(n, ast.Call):
+                for a in [*n.args, *[k.value for k in n.keywords], *([n.func.value] if isinstance(n.func, ast.Attribute) else [])]:
+                    out |= self.tags(f, a)
+        return out
 
 
 def assert_statements(repo: Repo) -> list[tuple[FuncInfo | None, ast.Assert, str]]:
@@ -273,52 +907,6 @@ def assert_statements(repo: Repo) -> list[tuple[FuncInfo | None, ast.Assert, str
             if isinstance(n, ast.Assert):
                 out.append((repo.func_of(n), n, mod.relpath))
     return out
-
-
-def run_r3_r4(repo: Repo, res: Result) -> None:
-    n = 0
-    for f in repo.all_functions():
-        for r in own_nodes(f.node):
-            if not isinstance(r, ast.Raise):
-                continue
-            name = exception_class_name(repo, f, r.exc)
-            n += 1
-            is_ae = is_assertion_error(repo, name)
-            site_ok = (f.module.name, f.qualname) in VERDICT_SITES
-            ok = (not is_ae) or site_ok
-            res.add("C13.R3", repo.key(f, r), ok, f"raises {name.split('.')[-1]}" + (" (verdict site)" if is_ae else ""), where(f, r), nontrivial=is_ae, kind="effect") if ok else res.add(
-                "C13.R3", repo.key(f, r), False, f"{f.qualname} raises AssertionError (`{norm(r, 80)}`): a configuration / lookup problem would be indistinguishable from an architectural violation", where(f, r), kind="effect"
-            )
-            if r.exc is None and not any(isinstance(a, ast.ExceptHandler) for a in ancestors(r)):
-                res.add("C13.R3", repo.key(f, r) + " [bare raise]", False, "bare `raise` outside a handler", where(f, r))
-    found_sites = {(f.module.name, f.qualname) for f in repo.all_functions() for r in own_nodes(f.node) if isinstance(r, ast.Raise) and is_assertion_error(repo, exception_class_name(repo, f, r.exc))}
-    for s in sorted(VERDICT_SITES):
-        res.add("C13.R3", f"{s[0]}::{s[1]}::verdict site present", s in found_sites, "verdict site raises AssertionError" if s in found_sites else f"{s[1]} no longer raises AssertionError: violations cannot be signalled", kind="effect")
-    res.floor("C13.R3", 20, n)
-    asserts = assert_statements(repo)
-    for f, a, rel in asserts:
-        res.add("C13.R3", (repo.key(f, a) if f else f"{rel}::<module>::{norm(a)}"), False, f"`{norm(a, 80)}`: an `assert` statement raises AssertionError for a non-architectural reason (and disappears under -O)", f"{rel}:{a.lineno}", kind="effect")
-    res.add("C13.R3", "src::no assert statement", not asserts, f"{len(repo.modules)} modules contain no `assert` statement", kind="effect")
-    # positive fixture for the assert / broad-except detectors
-    import shutil, tempfile
-    from pathlib import Path
-
-    fx = Path(__file__).resolve().parents[1] / "fixtures" / "raises_and_handlers.py"
-    tmp = Path(tempfile.mkdtemp(prefix="pta-fixture-"))
-    try:
-        (tmp / "src" / "pytestarch").mkdir(parents=True)
-        shutil.copy(fx, tmp / "src" / "pytestarch" / "fixture_raises.py")
-        frepo = Repo(tmp)
-        if len(assert_statements(frepo)) != 1 or len([h for h in handlers(frepo) if handler_verdict(frepo, *h)[0] is False]) != 3:
-            raise AnalysisError("C13 fixture: assert / handler detectors do not recognise engine/fixtures/raises_and_handlers.py")
-        res.add("C13.R4", "fixture::engine/fixtures/raises_and_handlers.py", True, "positive fixture recognised (1 assert, 3 offending handlers)", nontrivial=False)
-    finally:
-        shutil.rmtree(tmp, ignore_errors=True)
-    hs = handlers(repo)
-    for f, h in hs:
-        ok, detail = handler_verdict(repo, f, h)
-        res.add("C13.R4", repo.key(f, h) + f" [{_try_key(h)}]", ok, detail, where(f, h), kind="effect")
-    res.floor("C13.R4", 4, len(hs))
 
 
 def handlers(repo: Repo) -> list[tuple[FuncInfo, ast.ExceptHandler]]:
@@ -335,14 +923,19 @@ def _try_key(h: ast.ExceptHandler) -> str:
     return norm(t.body[0], 60) if isinstance(t, ast.Try) and t.body else ""
 
 
-def handler_verdict(repo: Repo, f: FuncInfo, h: ast.ExceptHandler) -> tuple[bool, str]:
-    T = types_of(repo)
-    types_ = []
+def _handler_types(repo: Repo, f: FuncInfo, h: ast.ExceptHandler) -> list[str]:
     if h.type is None:
-        types_ = ["<bare>"]
-    else:
-        for e in (h.type.elts if isinstance(h.type, ast.Tuple) else [h.type]):
-            types_.append((repo.resolve_name(f.module, e) or dotted(e)).split(".")[-1])
+        return ["<bare>"]
+    return [(repo.resolve_name(f.module, e) or dotted(e)).split(".")[-1] for e in (h.type.elts if isinstance(h.type, ast.Tuple) else [h.type])]
+
+
+def assertion_raises(repo: Repo) -> list[tuple[FuncInfo, ast.Raise]]:
+    return [(f, r) for f in repo.all_functions() for r in own_nodes(f.node) if isinstance(r, ast.Raise) and r.exc is not None and is_assertion_error(repo, exception_class_name(repo, f, r.exc))]
+
+
+def handler_verdict(repo: Repo, taint: VerdictTaint, f: FuncInfo, h: ast.ExceptHandler) -> tuple[bool, str]:
+    T = types_of(repo)
+    types_ = _handler_types(repo, f, h)
     t = parent(h)
     body = t.body if isinstance(t, ast.Try) else []
     repo_calls = []
@@ -350,19 +943,30 @@ def handler_verdict(repo: Repo, f: FuncInfo, h: ast.ExceptHandler) -> tuple[bool
     for s in body:
         for c in ast.walk(s):
             if isinstance(c, ast.Call):
-                cs, how = T.callees(f, c, byname_fallback=False)
+                try:
+                    cs, how = T.callees(f, c, byname_fallback=False)
+                except Exception:  # noqa: BLE001
+                    cs = []
                 if cs:
                     repo_calls.append(norm(c, 50))
                 if isinstance(c.func, ast.Attribute) and c.func.attr in GRAPH_ACCESS:
                     graph_access.append(norm(c, 50))
             if isinstance(c, ast.Subscript) and "graph" in norm(c.value).lower():
                 graph_access.append(norm(c, 50))
+    from core.cfg import exit_kinds
+
+    converts = exit_kinds(h.body) == {"raise"} and not any(isinstance(r, ast.Raise) and r.exc is not None and is_assertion_error(repo, exception_class_name(repo, f, r.exc)) for b in h.body for r in ast.walk(b))
+    if converts and "AssertionError" not in types_:
+        return True, f"`except {', '.join(types_)}` always re-raises (as a non-AssertionError exception): nothing is swallowed"
     if any(x in ("<bare>", "Exception", "BaseException") for x in types_):
         return False, f"broad handler `except {', '.join(types_)}` in {f.qualname}: configuration and lookup errors raised below it are swallowed or turned into something else"
     if "AssertionError" in types_:
-        if (f.module.name, f.qualname) != (MULTI, "MultipleRuleApplier.assert_applies"):
-            return False, f"{f.qualname} catches AssertionError: a violated rule can be turned into a pass"
-        return True, "AssertionError is caught only by the aggregating applier (see C07.R2)"
+        # legitimate only where the caught verdict is passed on: some AssertionError raise of the same class / function depends on it
+        scope = [(g, r) for g, r in assertion_raises(repo) if g is f or (f.cls is not None and g.cls is f.cls)]
+        passed_on = [(g, r) for g, r in scope if "AE" in (taint.expr(g, r.exc) | frozenset().union(*[taint.expr(g, e) for e, _p in conds(g, r)] or [frozenset()]))]
+        if not passed_on or h.name is None:
+            return False, f"{f.qualname} catches AssertionError without passing the caught verdict on in an AssertionError of its own: a violated rule can be turned into a pass"
+        return True, f"the caught AssertionError is passed on by `{norm(passed_on[0][1], 60)}` in {passed_on[0][0].qualname} (aggregation, see C07.R2)"
     if any(x in LOOKUP_ERRORS for x in types_):
         if repo_calls or graph_access:
             return False, f"`except {', '.join(types_)}` in {f.qualname} wraps {', '.join((graph_access + repo_calls)[:3])}: the lookup error that rejects an unknown module name is swallowed and a verdict is produced"
@@ -370,191 +974,91 @@ def handler_verdict(repo: Repo, f: FuncInfo, h: ast.ExceptHandler) -> tuple[bool
     return True, f"`except {', '.join(types_)}` does not interfere with configuration or lookup errors"
 
 
-# --------------------------------------------------------------------------- R5 / R7
-
-
-def run_r5_r7(repo: Repo, res: Result, inl: Inliner) -> None:
-    beh = inl.behavior
-    v = beh.methods.get("_validate")
-    init = beh.methods.get("__init__")
-    if v is None or init is None:
-        raise AnalysisError("BehaviorRequirement._validate / __init__ not found")
-    raises = [r for r in own_nodes(v.node) if isinstance(r, ast.Raise)]
-    got = f_or([inl.conds(v, r) for r in raises])
-    want = f_and([atom("should_not"), f_or([atom("should"), atom("should_only")])])
-    extra = atoms_of(got) - set(ATOMS)
-    ok = not extra and equivalent(got, want)
-    res.add("C13.R5", f"{v.relpath}::{v.qualname}::contradictory verbs", ok, "raises exactly when should_not is combined with should / should_only (all 16 assignments)" if ok else f"BehaviorRequirement._validate raises under `{show(got)}`, required: `{show(want)}` (should_not combined with another verb must be rejected)", where(v, v.node), kind="decision-table")
-    calls = [c for c in calls_in(init.node) if is_attr_call(c, "_validate")]
-    ok = len(calls) == 1 and cfg_of(init).dominates(stmt_of(calls[0]), EXIT) and not conds(init, calls[0])
-    res.add("C13.R5", f"{init.relpath}::{init.qualname}::validate on construction", ok, "_validate runs unconditionally when the requirement is built" if ok else "BehaviorRequirement can be built without _validate having run", where(init, init.node), kind="dominance")
-    for r in raises:
-        name = exception_class_name(repo, v, r.exc)
-        res.add("C13.R5", repo.key(v, _if_of(r)) + " [error class]", not is_assertion_error(repo, name), f"raises {name.split('.')[-1]}", where(v, r), nontrivial=False)
-    # R7
-    rule = repo.cls(RULE, "Rule")
-    rv = rule.methods.get("_assert_required_configuration_present")
-    raises = [r for r in own_nodes(rv.node) if isinstance(r, ast.Raise)]
-    if not raises:
-        raise AnalysisError("Rule._assert_required_configuration_present raises nothing")
-    c = "self._configuration."
-    want = f_or([
-        f_not(f_or([atom(f"bool({c}should)"), atom(f"bool({c}should_only)"), atom(f"bool({c}should_not)")])),
-        atom(f"{c}import_ is None"),
-        f_not(atom(f"bool({c}modules_to_check)")),
-        f_not(atom(f"bool({c}modules_to_check_against)")),
-    ])
-    got_all = [guard_formula(rv, r) for r in raises]
-    ok = any(equivalent(g, want) for g in got_all)
-    if not ok:
-        # which required part is missing?
-        first = got_all[0]
-        missing = []
-        for label, part in (("verb", want[1][0]), ("import type", want[1][1]), ("subject", want[1][2]), ("object", want[1][3])):
-            if not implies(part, first):
-                missing.append(label)
-        detail = f"the required-configuration check raises under `{show(first)}`" + (f": a rule without {', '.join(missing)} is not rejected" if missing else ": it is not exactly 'subject, verb, import type or object missing'")
-    else:
-        detail = "raises exactly when subject, verb, import type or object is missing"
-    res.add("C13.R7", f"{rv.relpath}::{rv.qualname}::required parts", ok, detail, where(rv, rv.node), kind="decision-table")
-    for r in raises:
-        name = exception_class_name(repo, rv, r.exc)
-        res.add("C13.R7", repo.key(rv, _if_of(r)) + " [error class]", name.endswith("ImproperlyConfigured"), f"raises {name.split('.')[-1]}", where(rv, r), nontrivial=False)
-    # the 'anything' guard: raise iff anything and not should_not
-    reach = [f for f in reachable_funcs(repo, [rule.methods["assert_applies"]], byname=False) if f.cls is rule]
-    want2 = f_and([atom(f"bool({c}rule_object_anything)"), f_not(atom(f"bool({c}should_not)"))])
-    all_guards = f_or([guard_formula(f, r) for f in reach for r in own_nodes(f.node) if isinstance(r, ast.Raise) and not is_assertion_error(repo, exception_class_name(repo, f, r.exc))])
-    hit = implies(want2, all_guards)
-    res.add("C13.R7", f"{rule.module.relpath}::Rule::anything only with should_not", bool(hit), "'anything' with a verb other than should_not raises" if hit else "no guard rejects 'anything' combined with should / should_only", kind="decision-table")
-
-
-# --------------------------------------------------------------------------- R6
-
-
-def run_r6(repo: Repo, res: Result) -> None:
+def run_r3_r4(ctx: Ctx, res: Result) -> None:
+    repo = ctx.repo
+    taint = VerdictTaint(repo)
     n = 0
-    for m in S.models(repo):
-        fi = m.fi
-        cfg = cfg_of(fi)
-        params = fi.param_names[1:]
-        for p in params:
-            ann = norm(next(a.annotation for a in fi.params if a.arg == p)) if next(a for a in fi.params if a.arg == p).annotation is not None else ""
-            is_set = ann.startswith("set[")
-            lookups = []
-            for c in calls_in(fi.node):
-                if isinstance(c.func, ast.Name) and c.func.id == S.SUBMODULES and len(c.args) == 2:
-                    a = dotted(c.args[1])
-                    if a == p:
-                        lookups.append((c, "direct"))
-                    elif is_set:
-                        for lp in loops_around(c, fi.node):
-                            if isinstance(lp, ast.For) and dotted(lp.target) == a and dotted(lp.iter) == p:
-                                lookups.append((c, lp))
+    for f in repo.all_functions():
+        for r in own_nodes(f.node):
+            if not isinstance(r, ast.Raise):
+                continue
             n += 1
-            if is_set:
-                good = [(c, lp) for c, lp in lookups if lp != "direct" and cfg.dominates(lp, EXIT)]
-                ok = bool(good)
-                if ok:
-                    # inside the loop the lookup may only be skipped for the element equal to the subject (looked up on its own)
-                    c, lp = good[0]
-                    extra = conds(fi, c)[len(conds(fi, lp)):]
-                    subj = [q for q in params if q != p][0]
-                    for e, pol in extra:
-                        f = to_formula(e)
-                        a_, b_ = sorted([dotted(lp.target), subj])
-                        if not (equivalent(f if pol else f_not(f), f_not(atom(f"{a_} == {b_}")))):
-                            ok = False
-                detail = f"every element of `{p}` is looked up in the graph (raising for an unknown module) on every path" if ok else f"an element of `{p}` can escape the raising graph lookup {S.SUBMODULES}(graph, element): a misspelt module name yields a verdict"
-            elif fi.name == S.SUBMODULES:
-                # the worklist starts with the module's node and the first iteration expands it
-                ok = _first_iteration_lookup(fi, m, p)
-                detail = f"the node of `{p}` is expanded by the raising accessor in the first iteration" if ok else f"`{p}` may not reach the raising accessor"
-            else:
-                direct = [c for c, kind_ in lookups if kind_ == "direct" and cfg.dominates(stmt_of(c), EXIT)]
-                ok = bool(direct) or (m.role == "explicit" and p == params[0] and _first_iteration_lookup(fi, m, p) and cfg.dominates(m.loop, EXIT) and _no_return_before(fi, m.loop))
-                detail = f"`{p}` reaches a raising graph lookup on every path before the function returns" if ok else f"a path through {fi.name} returns without `{p}` having been looked up in the graph: a rule naming a module that does not exist gets a verdict instead of a lookup error"
-            res.add("C13.R6", f"{fi.relpath}::{fi.qualname}::lookup of {p}", ok, detail, where(fi, fi.node), kind="dominance")
-    res.floor("C13.R6", 7, n)
-    # the accessors raise for unknown nodes: bare sorted(graph.successors(node)), no guard, no handler
-    g = repo.cls(NXGRAPH, "NetworkxGraph")
-    for name, lib in ((S.SUCC, "successors"), (S.PRED, "predecessors")):
-        m = g.methods.get(name)
-        if m is None:
-            raise AnalysisError(f"NetworkxGraph.{name} not found")
-        body = [s for s in m.body if not (isinstance(s, ast.Expr) and isinstance(s.value, ast.Constant))]
-        ok = len(body) == 1 and isinstance(body[0], ast.Return) and any(is_attr_call(c, lib) and dotted(c.args[0]) == m.param_names[1] for c in ast.walk(body[0]) if isinstance(c, ast.Call) and c.args)
-        res.add("C13.R6", f"{m.relpath}::{m.qualname}::raising accessor", ok, f"returns the {lib} of the node directly (networkx raises for a node that is not in the graph)" if ok else f"{name} no longer hands the node straight to networkx' {lib}(): an unknown node may yield an empty result instead of an error", where(m, m.node), kind="structural")
-    # layer names: raising subscript per requested layer
-    lr = repo.cls(LAYER_RULE, "LayerRule")
-    gm = lr.methods.get("_get_all_modules_in_layers")
-    la = repo.cls(LAYER_RULE, "LayeredArchitecture")
-    gi = la.methods.get("__getitem__")
-    if gm is None or gi is None:
-        raise AnalysisError("LayerRule._get_all_modules_in_layers / LayeredArchitecture.__getitem__ not found")
-    p = gm.param_names[1]
-    ok = False
-    for node in own_nodes(gm.node):
-        if isinstance(node, ast.Subscript) and dotted(node.value) == "self._architecture" and isinstance(node.slice, ast.Name):
-            for lp in loops_around(node, gm.node):
-                for tgt, it in ([(lp.target, lp.iter)] if isinstance(lp, ast.For) else [(g_.target, g_.iter) for g_ in lp.generators] if hasattr(lp, "generators") else []):
-                    if dotted(tgt) == node.slice.id and dotted(it) == p:
-                        ok = True
-    res.add("C13.R6", f"{gm.relpath}::{gm.qualname}::every requested layer is looked up", ok, "each requested layer name indexes the architecture (raising for an undefined layer)" if ok else "a requested layer name is not used to index the architecture: a rule naming a layer that was never defined gets a verdict", where(gm, gm.node), kind="structural")
-    rets = [s for s in own_nodes(gi.node) if isinstance(s, ast.Return)]
-    ok = len(rets) == 1 and isinstance(rets[0].value, ast.Subscript) and dotted(rets[0].value.slice) == gi.param_names[1]
-    res.add("C13.R6", f"{gi.relpath}::{gi.qualname}::raising subscript", ok, "undefined layer names raise KeyError" if ok else "LayeredArchitecture.__getitem__ no longer raises for undefined layers", where(gi, gi.node), kind="structural")
+            if r.exc is None:
+                if not any(isinstance(a, ast.ExceptHandler) for a in ancestors(r)):
+                    res.add("C13.R3", repo.key(f, r) + " [bare raise]", False, "bare `raise` outside a handler", where(f, r))
+                continue
+            name = exception_class_name(repo, f, r.exc)
+            if not is_assertion_error(repo, name):
+                res.add("C13.R3", repo.key(f, r), True, f"raises {name.split('.')[-1]}", where(f, r), nontrivial=False, kind="effect")
+                continue
+            tg = taint.expr(f, r.exc)
+            for e, _pol in conds(f, r):
+                tg |= taint.expr(f, e)
+            ok = bool(tg)
+            res.add(
+                "C13.R3",
+                repo.key(f, r),
+                ok,
+                f"raises AssertionError from {'evaluation results' if 'EV' in tg else 'caught verdicts'} (verdict site)" if ok else f"{f.qualname} raises AssertionError (`{norm(r, 80)}`) although neither its condition nor its message derives from an evaluation: a configuration / lookup problem would be indistinguishable from an architectural violation",
+                where(f, r),
+                kind="effect",
+            )
+    res.floor("C13.R3", 5, n)
+    asserts = assert_statements(repo)
+    for f, a, rel in asserts:
+        res.add("C13.R3", (repo.key(f, a) if f else f"{rel}::<module>::{norm(a)}"), False, f"`{norm(a, 80)}`: an `assert` statement raises AssertionError for a non-architectural reason (and disappears under -O)", f"{rel}:{a.lineno}", kind="effect")
+    res.add("C13.R3", "src::no assert statement", not asserts, f"{len(repo.modules)} modules contain no `assert` statement", kind="effect")
+    # positive fixture for the assert / handler detectors (their expected count on the real tree is zero)
+    import shutil
+    import tempfile
+    from pathlib import Path
 
-
-def _no_return_before(fi: FuncInfo, loop: ast.AST) -> bool:
-    for s in fi.body:
-        if s is loop:
-            return True
-        if any(isinstance(x, ast.Return) for x in ast.walk(s)):
-            return False
-    return True
-
-
-def _first_iteration_lookup(fi: FuncInfo, m: S.SearchModel, p: str) -> bool:
-    """`W = [node(p)]`, V = set(), and nothing but the visited test precedes the neighbour lookup in the loop body."""
-    node_vars = {p}
-    for s in own_nodes(fi.node):
-        if isinstance(s, ast.Assign) and isinstance(s.value, ast.Call) and dotted(s.value.func) == "get_node" and dotted(s.value.args[0]) == p:
-            node_vars.add(dotted(s.targets[0]))
-        if isinstance(s, ast.Assign) and isinstance(s.value, ast.Attribute) and dotted(s.value.value) == p and s.value.attr == "identifier":
-            node_vars.add(dotted(s.targets[0]))
-    init = [s for s in fi.body if isinstance(s, ast.Assign) and dotted(s.targets[0]) == m.worklist]
-    if len(init) != 1 or not (isinstance(init[0].value, ast.List) and len(init[0].value.elts) == 1 and dotted(init[0].value.elts[0]) in node_vars):
-        return False
-    vinit = [s for s in fi.body if isinstance(s, ast.Assign) and dotted(s.targets[0]) == (m.visited or "")]
-    if m.visited and not (len(vinit) == 1 and isinstance(vinit[0].value, ast.Call) and dotted(vinit[0].value.func) == "set" and not vinit[0].value.args):
-        return False
-    # conditions under which the neighbour lookup is skipped: only the visited test
-    for e, pol in conds(fi, m.neighbour_call):
-        if e is m.loop.test:
-            continue
-        t = norm(e)
-        if not (m.visited and t == f"{m.popped} in {m.visited}" and pol is False):
-            return False
-    return True
+    fx = Path(__file__).resolve().parents[1] / "fixtures" / "raises_and_handlers.py"
+    tmp = Path(tempfile.mkdtemp(prefix="pta-fixture-"))
+    try:
+        (tmp / "src" / "pytestarch").mkdir(parents=True)
+        shutil.copy(fx, tmp / "src" / "pytestarch" / "fixture_raises.py")
+        frepo = Repo(tmp)
+        ftaint = VerdictTaint(frepo)
+        if len(assert_statements(frepo)) != 1 or len([h for h in handlers(frepo) if handler_verdict(frepo, ftaint, *h)[0] is False]) != 3:
+            raise AnalysisError("C13 fixture: assert / handler detectors do not recognise engine/fixtures/raises_and_handlers.py")
+        res.add("C13.R4", "fixture::engine/fixtures/raises_and_handlers.py", True, "positive fixture recognised (1 assert, 3 offending handlers)", nontrivial=False)
+    finally:
+        shutil.rmtree(tmp, ignore_errors=True)
+    for f, h in handlers(repo):
+        ok, detail = handler_verdict(repo, taint, f, h)
+        res.add("C13.R4", repo.key(f, h) + f" [{_try_key(h)}]", ok, detail, where(f, h), kind="effect")
 
 
 def run(repo: Repo) -> Result:
     res = Result("C13")
     res.explanation = (
-        "Decides, per method and per guard (not per call history), that undefined or incomplete specifications are rejected before a verdict can "
-        "exist: (R1) no rewrite that precedes a validator makes one of its guards unsatisfiable; (R2) validators, None-guards, option guards and "
-        "relative_to dominate evaluation / dereferences / state writes; (R3) AssertionError is raised only at the two verdict sites and src/ has "
-        "no assert statement; (R4) no broad handler and no lookup-error handler around graph accesses or validators; (R5) contradictory verbs "
-        "raise exactly when should_not meets another verb; (R6) every subject and object reaches a raising graph lookup on every path, the "
-        "accessors hand nodes straight to networkx, every requested layer name indexes the architecture; (R7) the required-configuration "
-        "formula is exactly 'subject, verb, import type or object missing' plus the 'anything only with should_not' guard."
+        "Decides, per public entry point (not per call history), that undefined or incomplete specifications are rejected before a verdict "
+        "can exist. The entry points are interpreted symbolically (rules/c13_sym.py: private helpers followed, literal tables unrolled, "
+        "first worklist iteration peeled); an obligation holds when no normal return / entry into an AssertionError site / AssertionError "
+        "raise is consistent with the invalid specification: (R7) Rule without verb, import type, subject or object; (R1) 'anything' with "
+        "a verb other than should_not, and no rewrite of the configuration hides a value from a later check; (R5) should_not with another "
+        "verb (requirement class and pipeline); (R2) module lists before a side was selected, LayerRule methods before layers_that / "
+        "based_on, DiagramRule without file or tags, invalid option combinations and module_path outside root_path of "
+        "get_evaluable_architecture; (R6) every module filter handed to a search reaches networkx' raising successors/predecessors on "
+        "every path, every requested layer name is a raising subscript; (R3) AssertionError is raised only from evaluation results or "
+        "caught verdicts, no assert statement; (R4) no broad handler, no lookup-error handler around graph accesses or repo calls, caught "
+        "AssertionErrors are passed on."
     )
-    res.not_decided = "arbitrary call sequences: histories that defeat a guard through state the guard does not read are only caught when that state is in the guard's formula (see C16.R2)."
-    res.trusted_base = ["networkx raises NetworkXError for successors/predecessors of a missing node", "pathlib.Path.relative_to raises ValueError", "engine CFG dominance and guard formulas"]
-    inl = Inliner(repo)
-    run_r1(repo, res)
-    run_r2(repo, res)
-    run_r3_r4(repo, res)
-    run_r5_r7(repo, res, inl)
-    run_r6(repo, res)
+    res.not_decided = "arbitrary call sequences: each obligation is about one call of one public method on an arbitrary object state; histories that defeat a check through state the check does not read are out of scope (see C16.R2). Regex filters: C11.R2."
+    res.trusted_base = [
+        "networkx raises NetworkXError for successors/predecessors of a missing node",
+        "pathlib.Path.relative_to raises ValueError",
+        "dict subscripts raise KeyError",
+        "the symbolic executor over-approximates path conditions (unknown constructs become free atoms / havoc)",
+    ]
+    ctx = Ctx(repo)
+    roles = rule_roles(ctx, res)
+    run_rule_pipeline(ctx, res, roles)
+    run_side_guard(ctx, res, roles)
+    run_layer_rule(ctx, res)
+    run_diagram_rule(ctx, res)
+    run_entry_point(ctx, res)
+    run_r3_r4(ctx, res)
+    run_lookups(ctx, res)
     return res
